@@ -7,7 +7,7 @@ usage: python -m harness.core Cxx [--tier quick|thorough]
 import argparse, fcntl, glob, hashlib, importlib, json, os, random, re, subprocess, sys, time
 import multiprocessing as mp
 
-from harness import coqio
+from harness import coqio, translate
 
 VERIF = '/verif'
 COQDIR = VERIF + '/coq'
@@ -66,7 +66,7 @@ def build_library():
 def hygiene():
     """Fail closed on anything that declares an axiom or switches off a kernel check."""
     hits = []
-    for path in glob.glob(COQDIR + '/theories/**/*.v', recursive=True):
+    for path in glob.glob(COQDIR + '/theories/**/*.v', recursive=True) + glob.glob(COQDIR + '/gen/*.v'):
         txt = open(path).read()
         txt = re.sub(r'\(\*.*?\*\)', '', txt, flags=re.S)
         for m in FORBIDDEN.finditer(txt):
@@ -329,6 +329,17 @@ def run_check(prop, tier, seed):
     hy = hygiene()
     th = check_theorems(prop, mod.PROPS_FILE) if rc == 0 else \
         {'obligations': 0, 'discharged': 0, 'axioms': [], 'ok': False, 'rc': rc, 'stderr': blog, 'names': []}
+    # 1b. functions whose source text is translated to Gallina on this run and proved equal to the model
+    if rc == 0 and prop in translate.TARGETS:
+        tg = translate.check(prop, os.path.join(WORK, prop))
+        th['obligations'] += tg['obligations']
+        th['discharged'] += tg['discharged']
+        th['names'] = th['names'] + ['translated:' + n for n in tg['names']]
+        th['axioms'] = sorted(set(th['axioms']) | set(tg['axioms']))
+        ev_extra['translated_functions'] = tg['functions']
+        if not tg['ok']:
+            th['ok'] = False
+            th['stderr'] = (th.get('stderr') or '') + '\ntranslated source no longer proved equal to the model: ' + tg['log']
     proof_broken = (rc != 0) or (not th['ok']) or bool(hy) or th['discharged'] < th['obligations']
     if tier == 'thorough' and not proof_broken:
         ck = run_coqchk(mod.PROPS_FILE)
